@@ -108,6 +108,10 @@ def make_region(rng):
         return kind, '`' + body + '`', T.Name, LEFTS, RIGHTS
     if kind == 'dollar':
         tag = rng.choice(['', '', 'a', 'body', '_t', 'T1', 'Äx'])
+        if rng.random() < 0.04:
+            # a tag of any length (63/64: identifier limits elsewhere)
+            tag = rng.choice(['t', 'Tag_', 'é']) * rng.choice(
+                [16, 31, 63, 64, 65, 128, 300])
         delim = '$' + tag + '$'
         body = body_soup(rng, '$' if rng.random() < 0.7 else '',
                          forbid_subs=(delim,))
